@@ -52,10 +52,10 @@ ASSUMPTIONS = [
     'clauses needing .schema are masked for statements with unnamed outputs (C07 finding: .schema recursion)',
 ]
 FLOORS = {
-    'mode:edit': 0.35,
+    'mode:edit': 0.25,
     'mode:rebuild': 0.12,
     'edit:literal-collide': 0.03,
-    'shape:join': 0.30,
+    'shape:join': 0.22,
     'shape:nested': 0.10,
     'parse:compared': 0.25,
 }
@@ -599,9 +599,45 @@ def _source_pool():
     return pool
 
 
+def cross_interpreter(ctx):
+    """Identity survives pickling *into another interpreter* (different hash seed - what dask workers are): pool objects
+    are built and hashed here, pickled, and compared with their rebuilt twins by ``vf.dslx.xproc`` in a fresh process."""
+    import json
+    import os
+    import pickle
+    import subprocess
+    import sys
+
+    items = [('source', s) for s in _source_pool()] + [('feature', s) for s in _feature_pool()]
+    payload, kept = [], []
+    for label, spec in items:
+        try:
+            obj = build.build_source(spec, {}) if label == 'source' else build.build_feature(spec, {})
+            hash(obj)  # whatever the object remembers about its hash, it remembers from *this* interpreter
+            payload.append((label, spec, pickle.dumps(obj)))
+            kept.append((label, spec))
+        except Exception:  # pylint: disable=broad-except
+            continue  # unpicklable / unhashable pool members are the business of the other clauses
+    path = os.path.join(ctx.scratch, f'c08-xproc-{ctx.seed}.pkl')
+    with open(path, 'wb') as fh:
+        pickle.dump(payload, fh)
+    env = dict(os.environ, PYTHONHASHSEED='424242' if os.environ.get('PYTHONHASHSEED') != '424242' else '7')
+    proc = subprocess.run([sys.executable, '-W', 'ignore', '-m', 'vf.dslx.xproc', path], capture_output=True, text=True, env=env, timeout=600, check=False)
+    line = next((ln for ln in proc.stdout.splitlines() if ln.startswith('XPROC ')), None)
+    if line is None:
+        raise HarnessError(f'cross-interpreter helper failed: {proc.stderr[-500:]}')
+    ctx.campaign = 'xproc'
+    bad = {idx: (sym, detail) for idx, sym, detail in json.loads(line[6:])}
+    for idx, (label, spec) in enumerate(kept):
+        ctx.case({'label': label, 'x': spec, 'mode': 'cross-interpreter'}, nontrivial=True, classes=['xproc', f'xproc:{label}'])
+        if idx in bad:
+            ctx.fail({'label': label, 'x': spec}, 'cross-interpreter-pickle', bad[idx][0], bad[idx][1], [label])
+
+
 def enumerate_extra(ctx, shard, nshards):
     if shard != 0:
         return
+    cross_interpreter(ctx)
     ctx.campaign = 'pool'
     kinds = _kind_pool()
     feats = _feature_pool()
